@@ -79,13 +79,14 @@ def run(ctx, prop):
     for w in F.witness_cases(prop):
         cases.append(("witness", w))
     cases.append(("gen", gen.coverage_case(f"{prop}-coverage")))
+    cases.append(("gen", gen.coverage_case2(f"{prop}-coverage2")))
     for i in range(n):
         c = fix_for_cpp(gen.gen_case(ctx.rng, bench_opts(ctx.rng), cid=f"{prop}-{ctx.seed}-{i}"))
         cases.append(("gen", c))
     for origin, case in cases:
         with C.Scratch() as tmp:
             langs = ("c", "cpp", "rust")
-            if origin == "witness" and case.get("langs"):
+            if case.get("langs"):
                 langs = tuple(case["langs"])
             b, r, used = B.build_and_run(ctx, case, os.path.join(tmp, "w"), langs=langs,
                                          valuations=3, sanitize=(ctx.tier == "thorough"))
@@ -132,6 +133,8 @@ def run(ctx, prop):
                     mw = B.model_wire(ctx, case, call["iface"], m, a["plan"])
                 secs = [int(x) for x in mw["sections"].split(",") if x] if mw and "sections" in mw else None
                 cls = method_classes(case, m, secs)
+                if call["stub"] == "rust" and call["skel"] == "rust":
+                    cls -= {"bundlePadding"}       # the finding is about the C and C++ sides only
                 if a["plan"]["status"] != 0:
                     hist["error_status_calls"] += 1
                 if a["plan"]["tokens_in"] or a["plan"]["tokens_out"]:
@@ -165,8 +168,8 @@ def run(ctx, prop):
                                                      "structs": [idl.render_node(x) for f0 in case["files"] for x in f0["nodes"] if x["k"] == "struct"][:6]},
                                             "failures": [f_]})
                 for d_ in dis:
-                    if cls & set(KNOWN[prop].values()):
-                        continue        # inside a known-finding class the envelope is non-canonical by definition
+                    if cls & {"ooBeforeOi", "embeddedObjOrder", "smallObjStruct", "bundlePadding"}:
+                        continue        # inside a known-finding class (of C01/C03) the envelope differs from the reference by definition
                     disagree.append({"case": {"id": case["id"], "method": idl.render_member(m).strip(), "call": call}, "difference": d_})
                 if len(samples) < 4 and a["env"] and len(m["params"]) >= 3:
                     samples.append({"call": call, "method": idl.render_member(m).strip(), "envelope": a["env"], "impl": a["impl"], "ret": a["ret"]})
